@@ -276,13 +276,10 @@ Definition v_mul (a b : value) : res value :=
   | VM m =>
       match b with
       | VM o =>
-          do same <- model_eq m o;
-          if same then Ok a
-          else
-            do it <- interactions (commons m) (commons o);
-            do m' <- add_terms (mk_model (map AC (commons m ++ commons o)%list) None)
-                               (model_terms (mk_model it None));
-            Ok (VM m')
+          do it <- interactions (commons m) (commons o);
+          do m' <- add_terms (mk_model (map AC (commons m ++ commons o)%list) None)
+                             (model_terms (mk_model it None));
+          Ok (VM m')
       | VT t' =>
           if single_numeric t' then Err EType
           else
